@@ -112,7 +112,102 @@ func configs07(tier string) []xplore.Config {
 			}
 		}
 	}
+	// many targets: an all-targets STREAM on a collector with six targets of which
+	// one is denied (each position in turn), every target holding two leaves and
+	// updated twice by one writer, round-robin and target by target: whatever an
+	// implementation remembers about earlier verdicts, it holds for six targets
+	for denied := 1; denied <= 6; denied++ {
+		for _, order := range []string{"round-robin", "target by target"} {
+			out = append(out, xplore.Config{Name: fmt.Sprintf("six targets, t%d denied, stream *:[*], one writer updating every target twice %s", denied, order), Bound: bound - 1, Data: cfg07many{denied: denied, order: order}})
+		}
+	}
 	return out
+}
+
+type cfg07many struct {
+	denied int
+	order  string
+}
+
+func run07many(cfg xplore.Config, ch vrt.Chooser, trace bool) (xplore.Outcome, *vrt.Result) {
+	d := cfg.Data.(cfg07many)
+	var out xplore.Outcome
+	res := vrt.Run(ch, vrt.Options{Reverse: cfg.Reverse, Trace: trace}, func() {
+		names := []string{"t1", "t2", "t3", "t4", "t5", "t6"}
+		allowed := map[string]bool{}
+		for i, n := range names {
+			allowed[n] = i+1 != d.denied
+		}
+		a := &acl{allowed: allowed}
+		w := newWorld(names, subscribe.WithACL(a))
+		for _, t := range names {
+			for _, p := range []string{"a/b", "a/c"} {
+				w.noteHeld(t, p, 1)
+				w.c.GnmiUpdate(&pb.Notification{Timestamp: 1, Prefix: &pb.Path{Target: t}, Update: []*pb.Update{{Path: mkPath(p), Val: ival(1)}}})
+			}
+		}
+		sp := subSpec{target: "*", paths: []string{"*"}, mode: pb.SubscriptionList_STREAM, user: "u"}
+		st := newStream(sp)
+		w.streams = []*fstream{st}
+		vrt.GoNamed("rpc", func() {
+			st.status = w.srv.Subscribe(st)
+			st.returned = true
+			st.cancel()
+		})
+		done := false
+		vrt.GoNamed("writer", func() {
+			if d.order == "round-robin" {
+				for r := 0; r < 2; r++ {
+					for _, t := range names {
+						w.apply(t, wop{"upd", "a/b"})
+					}
+				}
+			} else {
+				for _, t := range names {
+					w.apply(t, wop{"upd", "a/b"})
+					w.apply(t, wop{"upd", "a/c"})
+				}
+			}
+			done = true
+		})
+		settle()
+		out.Obs = fmt.Sprintf("%v|%s", status.Code(st.status), renderLog(st.log))
+		out.Nontrivial = true
+		if !done {
+			viol(&out, "writer-blocked", "the writer never finished: %v", vrt.ParkedInfo())
+		}
+		for _, r := range st.log {
+			if n := r.GetUpdate(); n != nil {
+				if t := n.GetPrefix().GetTarget(); !allowed[t] {
+					viol(&out, "denied-target-data-sent", "%s: a response for denied target %q was sent: %s", cfg.Name, t, renderLog([]*pb.SubscribeResponse{r}))
+					break
+				}
+			}
+		}
+		if st.returned {
+			viol(&out, "stream-ended", "%s: stream ended with %v", cfg.Name, st.status)
+		} else {
+			want := w.expected(sp)
+			for k := range want {
+				if !allowed[k[:strings.Index(k, "|")]] {
+					delete(want, k)
+				}
+			}
+			rep, _ := replay(st.log)
+			if renderMap(rep) != renderMap(want) {
+				viol(&out, "authorised-data-missing", "%s: replaying the responses yields\n  %s\nauthorised matching content is\n  %s", cfg.Name, renderMap(rep), renderMap(want))
+			}
+		}
+		st.cancel()
+		vrt.Idle()
+		if !vrt.AllDone() {
+			viol(&out, "deadlock", "threads never finished after cancel: %v", vrt.ParkedInfo())
+		}
+	})
+	if res.Aborted != "" {
+		viol(&out, hutil.AbortClass(res.Aborted, res.Panic), "%s %s", res.Aborted, strings.Join(res.Parked, "; "))
+	}
+	return out, res
 }
 
 type cfg07two struct {
@@ -245,6 +340,9 @@ func run07two(cfg xplore.Config, ch vrt.Chooser, trace bool) (xplore.Outcome, *v
 func run07(cfg xplore.Config, ch vrt.Chooser, trace bool) (xplore.Outcome, *vrt.Result) {
 	if _, ok := cfg.Data.(cfg07two); ok {
 		return run07two(cfg, ch, trace)
+	}
+	if _, ok := cfg.Data.(cfg07many); ok {
+		return run07many(cfg, ch, trace)
 	}
 	d := cfg.Data.(cfg07)
 	var out xplore.Outcome
